@@ -49,8 +49,8 @@ MANIFEST = {
                    "prediction (must time out / must complete / either) is compared with the implementation; results, the next scan and a "
                    "second scanner are compared with uninterrupted runs."),
     "level_note": ("Trusted: Coq kernel, translator, harness, hook. Partial: promptness inside the emitted code (where wasmtime checks the "
-                   "epoch) is exercised by real-heartbeat runs in the thorough tier only. One known finding in block mode (stale snippets "
-                   "after a timed-out finish, shared with C04)."),
+                   "epoch) is exercised by real-heartbeat runs in the thorough tier only. The defect found by this check (stale snippets after a timed-out "
+                   "finish in block mode) was repaired."),
     "technique": "Coq proof over a timeout machine with source-generated reactions + deterministic expiry injection at every poll site (hook) + differential comparison",
     "design_ref": "DESIGN.md section 4, C16",
 }
